@@ -264,7 +264,8 @@ func (y *c06Sys) checkDeliveries(attempts []fAttempt) *violation {
 					if p.recv == d.Receiver && p.key == d.GroupKey {
 						if g := x.gt.alerts[a.name]; g != nil {
 							for _, po := range g.posts {
-								if !po.resolve && d.Tick >= po.at+10*time.Second && d.Tick <= po.at+10*time.Second+5*time.Millisecond {
+								// any post opens a group when none exists, also the re-send of a resolved alert
+								if d.Tick >= po.at+10*time.Second && d.Tick <= po.at+10*time.Second+5*time.Millisecond {
 									ok = true
 								}
 							}
